@@ -37,57 +37,78 @@ def opaque_tokens(v, acc=None):
     return acc
 
 
+def _worse(a, b):
+    order = {'proved': 0, 'unproven': 1, 'refuted': 2}
+    return a if order[a[0]] >= order[b[0]] else b
+
+
 def clauses(chk, F):
     cfg = F.cfg
-    model, spec, P = scanners.product(F, 'polling')
+    model, spec, P, allp = scanners.product(F, 'polling')
     fk_feed, fk_poll = model.sub_key('feed'), model.sub_key('poll')
-    by_cell = {}
-    for r in P.rows:
-        by_cell.setdefault((r.pair_key, r.cname), []).append(r)
-    for key in P.order:
-        cs, ss, cons, label = P.pairs[key]
-        shape = A.spec_shape(ss)
-        tag = ss[0]
-        # ---- poll has no effect unless a pending value expired
-        rows = by_cell.get((key, 'poll'), [])
-        status, why = 'proved', ''
-        for r in rows:
-            if r.outcome_kind != 'return':
-                status, why = 'unproven', r.outcome_kind
-                continue
-            expired = any(p[0] == 'lt' and p[2] is False for p in r.preds)
-            if tag in ('P6', 'P38') and expired:
-                continue
-            if not r.identity or r.outputs:
-                status, why = 'refuted', 'poll in state %s %s changes the state or reports: %s' % (
-                    A.typestate_label(F, cs), 'before the timeout' if tag in ('P6', 'P38') else '(nothing pending)', scanners.describe_row(F, r))
-        if tag in ('P6', 'P38') and status == 'proved':
-            ps = [p for r in rows for p in r.preds]
-            want = T.norm_pred(('cmp', 'lt', ('app', 'elapsed', (ss[6],)), ss[1]), True, cons)
-            if not ps or any((p[0], p[1]) != (want[0], want[1]) for p in ps) or {p[2] for p in ps} != {True, False}:
-                status, why = 'refuted', 'poll does not split exactly on elapsed(arrival) < timeout: recorded %s' % [T.pred_str(p) for p in ps]
+    res_poll, res_feed, shapes = {}, {}, []
+    for k in sorted(allp):
+        Pk = allp[k]
+        by_cell = {}
+        for r in Pk.rows:
+            by_cell.setdefault((r.pair_key, r.cname), []).append(r)
+        for key in Pk.order:
+            cs, ss, cons, label = Pk.pairs[key]
+            shape = A.spec_shape(ss)
+            if shape not in shapes:
+                shapes.append(shape)
+            tag = ss[0]
+            # ---- poll has no effect unless a pending value expired
+            rows = by_cell.get((key, 'poll'), [])
+            status, why = 'proved', ''
+            for r in rows:
+                if r.outcome_kind != 'return':
+                    status, why = 'unproven', r.outcome_kind
+                    continue
+                expired = any(p[0] == 'lt' and p[2] is False for p in r.preds)
+                if tag in ('P6', 'P38') and expired:
+                    continue
+                if not r.identity or r.outputs:
+                    status, why = 'refuted', 'poll(channel %d) in state %s %s changes the state or reports: %s' % (
+                        k, A.typestate_label(F, cs), 'before the timeout' if tag in ('P6', 'P38') else '(nothing pending)', scanners.describe_row(F, r))
+            if tag in ('P6', 'P38') and status == 'proved':
+                ps = [p for r in rows for p in r.preds]
+                want = T.norm_pred(('cmp', 'lt', ('app', 'elapsed', (ss[6],)), ss[1]), True, cons)
+                if not ps or any((p[0], p[1]) != (want[0], want[1]) for p in ps) or {p[2] for p in ps} != {True, False}:
+                    status, why = 'refuted', 'poll(channel %d) does not split exactly on elapsed(arrival) < timeout: recorded %s' % (k, [T.pred_str(p) for p in ps])
+            cur = (status, why, [scanners.describe_row(F, r) for r in rows][:3])
+            res_poll[shape] = _worse(res_poll[shape], cur) if shape in res_poll else cur
+            # ---- time taint of feed
+            status, why, n = 'proved', '', 0
+            for r in Pk.rows:
+                if r.pair_key != key or r.kind not in ('cc', 'noncc') or r.outcome_kind != 'return':
+                    continue
+                n += 1
+                if any(e[0] == 'elapsed' for e in r.events):
+                    status, why = 'refuted', 'feed(%s) reads the elapsed time' % r.cname
+                if any(p[0] == 'lt' or 'elapsed' in repr(p) or 'now#' in repr(p) for p in r.preds):
+                    status, why = 'refuted', 'feed(%s) branches on a time-dependent condition %s' % (r.cname, [T.pred_str(p) for p in r.preds])
+                if opaque_tokens(r.ret):
+                    status, why = 'refuted', 'feed(%s) reports a clock value' % r.cname
+                if r.code_out is None:
+                    continue        # a cell the product already reports
+                # fresh stamp
+                new_opaque = opaque_tokens(r.code_out) - opaque_tokens(r.code_in)
+                if not new_opaque <= set(r.now_tokens):
+                    status, why = 'refuted', 'feed(%s) stores a time value that is not Instant::now() of this call' % r.cname
+                if r.spec_out is not None and r.spec_out[0] in ('P6', 'P38') and (r.spec_in[0] not in ('P6', 'P38') or r.cname in ('CC.6', 'CC.38')):
+                    stamp = r.spec_out[6]
+                    if stamp not in r.now_tokens or stamp not in opaque_tokens(r.code_out):
+                        status, why = 'refuted', 'feed(%s) enters a pending state without stamping the arrival time now' % r.cname
+            if why:
+                why = 'channel %d: %s' % (k, why)
+            cur = (status, why, n)
+            res_feed[shape] = _worse(res_feed[shape], cur) if shape in res_feed else cur
+    for shape in shapes:
+        status, why, found = res_poll[shape]
         chk.ob('%s/poll-no-effect/%s/%s' % (PID, cfg, shape), 'poll is the identity unless a pending value expired', status,
-               subject=fn_subject(F, fk_poll), expected='returns None, store unchanged', found=[scanners.describe_row(F, r) for r in rows][:3], why=why)
-        # ---- time taint of feed
-        status, why, n = 'proved', '', 0
-        for r in P.rows:
-            if r.pair_key != key or r.kind not in ('cc', 'noncc') or r.outcome_kind != 'return':
-                continue
-            n += 1
-            if any(e[0] == 'elapsed' for e in r.events):
-                status, why = 'refuted', 'feed(%s) reads the elapsed time' % r.cname
-            if any(p[0] == 'lt' or 'elapsed' in repr(p) or 'now#' in repr(p) for p in r.preds):
-                status, why = 'refuted', 'feed(%s) branches on a time-dependent condition %s' % (r.cname, [T.pred_str(p) for p in r.preds])
-            if opaque_tokens(r.ret):
-                status, why = 'refuted', 'feed(%s) reports a clock value' % r.cname
-            # fresh stamp
-            new_opaque = opaque_tokens(r.code_out) - opaque_tokens(r.code_in)
-            if not new_opaque <= set(r.now_tokens):
-                status, why = 'refuted', 'feed(%s) stores a time value that is not Instant::now() of this call' % r.cname
-            if r.spec_out is not None and r.spec_out[0] in ('P6', 'P38') and (r.spec_in[0] not in ('P6', 'P38') or r.cname in ('CC.6', 'CC.38')):
-                stamp = r.spec_out[6]
-                if stamp not in r.now_tokens or stamp not in opaque_tokens(r.code_out):
-                    status, why = 'refuted', 'feed(%s) enters a pending state without stamping the arrival time now' % r.cname
+               subject=fn_subject(F, fk_poll), expected='returns None, store unchanged', found=found, why=why)
+        status, why, n = res_feed[shape]
         chk.ob('%s/feed-time-independent/%s/%s' % (PID, cfg, shape), 'time taint of feed', status, subject=fn_subject(F, fk_feed),
                expected='no elapsed(), no time-dependent branch or output; pending states stamped with a fresh now()', found='%d rows' % n, why=why)
     # ---- timeout distribution
@@ -102,13 +123,13 @@ def clauses(chk, F):
         ok = len(outs) == 1 and outs[0].kind == 'return' and isinstance(outs[0].value, Ag)
         why = ''
         if ok:
-            arr = outs[0].value.fields[0]
+            arr = outs[0].value.fields[model.ai] if len(outs[0].value.fields) > model.ai else None
             ok = isinstance(arr, Ar) and len(arr.elems) == 16 and all(val_key(e) == val_key(arr.elems[0]) for e in arr.elems) \
-                and tok in opaque_tokens(arr.elems[0])
+                and tok in opaque_tokens(model.wrap(outs[0].value, 0))
             if not ok:
                 why = 'new(timeout) = %r' % (outs[0].value,)
         chk.ob(key, 'timeout stored in every element', 'proved' if ok else 'refuted', subject=fn_subject(F, newk),
-               expected='16 identical elements holding the given timeout', found=[o.kind for o in outs], why=why)
+               expected='16 identical elements; the given timeout stored for every channel', found=[o.kind for o in outs], why=why)
     guarded(chk, key, 'timeout stored in every element', ev)
 
 
